@@ -197,11 +197,35 @@ var writeFault func(store string) bool
 
 func SetWriteFault(f func(store string) bool) { hookMu.Lock(); writeFault = f; hookMu.Unlock() }
 
+// afterRead (persistent until cleared): called after every Get / Has has computed its answer and before it is handed to
+// the caller - a point at which a harness can hold the reading goroutine (check-then-act schedules).
+var afterRead func(store, key string)
+
+// iterFault (persistent until cleared): consulted when an iterator is created; err != nil makes that iterator break off
+// after n entries - Next() returns false and Error() returns err, the way the leveldb iterators report an I/O error or a
+// corrupted table block in the middle of a scan.
+var iterFault func(store, prefix string) (n int, err error)
+
+func SetAfterRead(f func(store, key string)) { hookMu.Lock(); afterRead = f; hookMu.Unlock() }
+func SetIterFault(f func(store, prefix string) (int, error)) {
+	hookMu.Lock()
+	iterFault = f
+	hookMu.Unlock()
+}
+func readDone(store, key string) {
+	hookMu.Lock()
+	h := afterRead
+	hookMu.Unlock()
+	if h != nil {
+		h(store, key)
+	}
+}
+
 func SetBeforeWrite(f func(store string))    { hookMu.Lock(); beforeWrite = f; hookMu.Unlock() }
 func SetOnIter(f func(store, prefix string)) { hookMu.Lock(); onIter = f; hookMu.Unlock() }
 func ClearHooks() {
 	hookMu.Lock()
-	beforeWrite, onIter, readFault, writeFault = nil, nil, nil, nil
+	beforeWrite, onIter, readFault, writeFault, afterRead, iterFault = nil, nil, nil, nil, nil, nil
 	hookMu.Unlock()
 }
 
@@ -253,8 +277,9 @@ func (d *db) Get(key []byte) ([]byte, error) {
 		}
 	}
 	mu.Lock()
-	defer mu.Unlock()
 	v, ok := d.s.data[string(key)]
+	mu.Unlock()
+	readDone(d.s.Path, string(key))
 	if !ok {
 		return nil, errors.New("leveldb: not found")
 	}
@@ -262,8 +287,9 @@ func (d *db) Get(key []byte) ([]byte, error) {
 }
 func (d *db) Has(key []byte) (bool, error) {
 	mu.Lock()
-	defer mu.Unlock()
 	_, ok := d.s.data[string(key)]
+	mu.Unlock()
+	readDone(d.s.Path, string(key))
 	return ok, nil
 }
 func (d *db) NewBatch() kvdb.Batch { return &batch{s: d.s, keys: map[string]bool{}} }
@@ -272,7 +298,21 @@ func (d *db) iter(start, limit []byte, prefix []byte) kvdb.Iterator {
 	it := d.iter0(start, limit, prefix)
 	hookMu.Lock()
 	h := onIter
+	itf := iterFault
 	hookMu.Unlock()
+	if itf != nil {
+		p := string(prefix)
+		if prefix == nil {
+			p = string(start)
+		}
+		if n, err := itf(d.s.Path, p); err != nil {
+			mi := it.(*iter)
+			if n < len(mi.keys) {
+				mi.keys, mi.vals = mi.keys[:n], mi.vals[:n]
+			}
+			mi.err = err // reported even when the scan would have ended there anyway: the read after the last entry failed
+		}
+	}
 	if h != nil {
 		p := string(prefix)
 		if prefix == nil {
@@ -328,7 +368,8 @@ type iter struct {
 	pos  int
 	kbuf []byte
 	vbuf []byte
-	at   int // position kbuf / vbuf hold, -2 = none
+	at   int   // position kbuf / vbuf hold, -2 = none
+	err  error // injected read fault: the scan ends after len(keys) entries with this error
 }
 
 func (it *iter) Len() int           { return len(it.keys) }
@@ -395,9 +436,14 @@ func (it *iter) Prev() bool {
 	it.load()
 	return it.valid()
 }
-func (it *iter) First() bool  { it.pos = 0; it.load(); return it.valid() }
-func (it *iter) Last() bool   { it.pos = len(it.keys) - 1; it.load(); return it.valid() }
-func (it *iter) Error() error { return nil }
+func (it *iter) First() bool { it.pos = 0; it.load(); return it.valid() }
+func (it *iter) Last() bool  { it.pos = len(it.keys) - 1; it.load(); return it.valid() }
+func (it *iter) Error() error {
+	if it.err != nil && it.pos >= len(it.keys) {
+		return it.err
+	}
+	return nil
+}
 func (it *iter) Release() {
 	it.pos = len(it.keys)
 	it.load()
